@@ -394,6 +394,10 @@ namespace occa {
   protected:
     //---[ Lambda methods ]-------------
     bool typelessEvery(const baseFunction &fn) const {
+      if (!length()) {
+        return true;
+      }
+
       bool returnValue = true;
 
       setupReturnMemory(returnValue);
@@ -418,6 +422,10 @@ namespace occa {
     }
 
     int typelessFindIndex(const baseFunction &fn) const {
+      if (!length()) {
+        return -1;
+      }
+
       int returnValue = -1;
 
       setupReturnMemory(returnValue);
@@ -438,6 +446,10 @@ namespace occa {
     }
 
     void typelessForEach(const baseFunction &fn) const {
+      if (!length()) {
+        return;
+      }
+
       OCCA_JIT(getMapArrayScope(fn), (
         OCCA_ARRAY_TILE_FOR_LOOP {
           OCCA_ARRAY_TILE_PARALLEL_FOR_LOOP {
@@ -449,6 +461,10 @@ namespace occa {
 
     template <class T2>
     occa::memory typelessMap(const baseFunction &fn) const {
+      if (!length()) {
+        return occa::memory();
+      }
+
       occa::memory output = device_.template malloc<T2>(length());
 
       typelessMapTo(output, fn);
@@ -458,6 +474,10 @@ namespace occa {
 
     void typelessMapTo(occa::memory output,
                        const baseFunction &fn) const {
+      if (!length()) {
+        return;
+      }
+
       occa::scope arrayScope = getMapArrayScope(fn);
       arrayScope.add("occa_array_output", output);
 
@@ -475,11 +495,38 @@ namespace occa {
                        const T2 &localInit,
                        const bool useLocalInit,
                        const baseFunction &fn) const {
+      if (!length()) {
+        return emptyReduction<T2>(type, localInit, useLocalInit);
+      }
+
       if (usingNativeCpuMode()) {
         return typelessCpuReduce<T2>(type, localInit, useLocalInit, fn);
       } else {
         return typelessGpuReduce<T2>(type, localInit, useLocalInit, fn);
       }
+    }
+
+    template <class T2>
+    T2 emptyReduction(reductionType type,
+                      const T2 &localInit,
+                      const bool useLocalInit) const {
+      // Nothing to reduce: the result is the initial value
+      if (useLocalInit) {
+        return localInit;
+      }
+      switch (type) {
+        case reductionType::sum:
+        case reductionType::bitOr:
+        case reductionType::bitXor:
+        case reductionType::boolOr:
+          return T2(0);
+        case reductionType::multiply:
+          return T2(1);
+        default:
+          // bitAnd, boolAnd, min and max start from the first entry
+          OCCA_FORCE_ERROR("Cannot reduce an empty array without an initial value");
+      }
+      return T2();
     }
 
     template <class T2>
